@@ -970,6 +970,7 @@ func (p *balloons) fillableBalloonInstances(blnDef *BalloonDef, fm FillMethod, c
 			}
 		}
 		undoFuncs = append(undoFuncs, func() {
+			p.forgetCpuClass(newBln)
 			p.freeCpus = p.freeCpus.Union(newBln.Cpus)
 			// CPUs of the abandoned balloon are idle again, share them.
 			p.updatePinning(p.shareIdleCpus(newBln.Cpus, cpuset.New())...)
